@@ -118,6 +118,17 @@ theorem wake_exactly_once (v : Variant) (hP : 0 < v.period) : ∀ es s, (sys v).
   by_cases h1 : s.pc f = .woken <;> by_cases h2 : s.pc f = .parkedL <;> by_cases h3 : s.pc f = .parked <;>
     simp_all <;> omega
 
+/-- the same on the events themselves: in every accepted trace, for every fiber, the number of
+    `resumed` notes, of READY writes by wake passes and of parks differ by at most one, in this
+    order — a fiber is never made READY twice for one park, never resumed twice for one wake. -/
+theorem wake_exactly_once_events (v : Variant) (hP : 0 < v.period) : ∀ es s, (sys v).run es = some s →
+    ∀ f, es.countP (isResume f) ≤ es.countP (isWake f) ∧ es.countP (isWake f) ≤ es.countP (isPark f) ∧
+      es.countP (isPark f) ≤ es.countP (isResume f) + 1 := by
+  intro es s h f
+  have hc := counters_count_events v h f
+  have := wake_exactly_once v hP es s h f
+  omega
+
 /-- An API call returns only after every fiber_sleep call it makes has been resumed. -/
 theorem returns_after_all_segments (v : Variant) (hP : 0 < v.period) : ∀ es s, (sys v).run es = some s →
     ∀ f, s.pc f = .done → s.segs f = [] ∧ s.credit f = s.guar f := by
